@@ -140,7 +140,7 @@ impl Prop for C06 {
         Ok(())
     }
     fn rule(&self) -> String {
-        "generated (date mixture, one of the 6 angle methods, latitude up to +-89.5 with half the mass in 45-89.5 and atoms within 1 deg of the existence boundaries 90-|dec|+-0.833 and 90-|dec|-angle constructed from the oracle declination, GMT within 2 h). Each case yields up to 6 existence decisions. Non-trivial = at least one decision outside the 0.05 deg exemption band; distinct by hash of the case".into()
+        "generated (date mixture, one of the 6 angle methods, latitude up to +-89.5 with half the mass in 45-89.5 and atoms within 1 deg of the existence boundaries 90-|dec|+-0.833 and 90-|dec|-angle constructed from the oracle declination, GMT within 2 h). Each case yields up to 6 existence decisions. Every case is preceded by a priming call with a sibling input on the same thread. Non-trivial = at least one decision outside the 0.05 deg exemption band; distinct by hash of the case".into()
     }
     fn assumptions(&self) -> Vec<String> {
         vec![
